@@ -465,7 +465,7 @@ func writesThroughParam(c *Ctx, f *ssa.Function, k int, depth int, seen map[*ssa
 			if n := calleeName(cc); n == "builtin.delete" && len(cc.Args) > 0 && rootIs(cc.Args[0]) {
 				found = true
 			}
-			if mutatingExternal[calleeName(cc)] && len(cc.Args) > 0 && rootIs(stripIface(cc.Args[0])) {
+			if mutatingExternal[calleeName(cc)] && len(cc.Args) > 0 && rootIs(mutatedArg(cc)) {
 				found = true
 			}
 			if sc := cc.StaticCallee(); sc != nil && isRepoFn(sc) {
@@ -727,7 +727,7 @@ func writesVia(c *Ctx, j ssa.Instruction, v ssa.Value) (string, bool) {
 		if calleeName(cc) == "builtin.delete" && len(cc.Args) > 0 && rooted(cc.Args[0]) {
 			return "a delete on it", true
 		}
-		if mutatingExternal[calleeName(cc)] && len(cc.Args) > 0 && rooted(stripIface(cc.Args[0])) {
+		if mutatingExternal[calleeName(cc)] && len(cc.Args) > 0 && rooted(mutatedArg(cc)) {
 			return "a call to " + calleeName(cc) + " (reorders/overwrites its argument in place)", true
 		}
 		if sc := cc.StaticCallee(); sc != nil && isRepoFn(sc) {
